@@ -400,8 +400,34 @@ theorem blockValue_total' (X : Expanders) (b : Block)
         generalize u32le (List.take 4 e) = n
         split
         · rfl
-        · unfold add32
-          rw [slice_of_le _ _ 4 _ (by omega) (by omega), ok_bind]
+        · rw [slice_of_le _ _ 4 _ (by omega) (by omega), ok_bind]
+          rfl
+  · split
+    · obtain ⟨h, e⟩ := readSliceHdr_spec b.data
+      rw [e]; rfl
+    · split
+      · rcases expandBlockdata_spec X b.method b.data with h | ⟨e, h, _⟩
+        · rw [h]; rfl
+        · rw [h]; rfl
+      · rfl
+
+
+/-- with repair C11-23 (`4+uint64(end)`) no size hypothesis is needed -/
+theorem blockValue_total_all (X : Expanders) (b : Block) : (blockValue X b).isPanic = false := by
+  unfold blockValue
+  split
+  · rcases expandBlockdata_spec X b.method b.data with h | ⟨e, h, _⟩
+    · rw [h]; rfl
+    · rw [h, ok_bind]
+      split
+      · rfl
+      · rw [sliceTo_of_le _ _ 4 (by omega), ok_bind]
+        unfold uint32LE
+        rw [if_neg (by rw [List.length_take]; omega), ok_bind]
+        generalize u32le (List.take 4 e) = n
+        split
+        · rfl
+        · rw [slice_of_le _ _ 4 _ (by omega) (by omega), ok_bind]
           rfl
   · split
     · obtain ⟨h, e⟩ := readSliceHdr_spec b.data
